@@ -542,6 +542,10 @@ STRUCT_GROUPS = [
     (r"switch:(packed|sparse):(empty-cases-empty-default|two-empty-cases(-no-default)?|multi-label-empty-case(-no-default)?)@(top|nested)", "switch-empty-cases-printed-twice-duplicate-case-label"),
     (r"switch:(packed|sparse):fallthrough(-into-return)?@nested", "switch-fallthrough-wrong-follow-when-nested"),
     (r"switch:(packed|sparse):if-return-falls-into-next-case@(top|nested)", "switch-case-label-lost-after-if-return-fallthrough"),
+    (r"switch:(packed|sparse):empty-if-case-falls-through@(top|nested)", "switch-case-label-lost-after-if-return-fallthrough"),
+    (r"switch:(packed|sparse):if-return-then-break@(top|nested)", "switch-case-with-if-return-loses-break"),
+    (r"empty-if:throwing-condition", "div-by-zero-exception-lost-empty-if-condition-commented-out"),
+    (r"decl:compound-if-else-assigns-in-both-branches", "declaration-lost-when-hoisted-to-merged-short-circuit-condition"),
     (r"decl:dead-stmt-uses-local", "declaration-left-in-one-branch-after-dead-use-removed"),
     (r"decl:def-in-do-while-body", "declaration-inside-do-while-body-but-used-after-loop"),
     (r"throw:div-or-rem", "div-by-zero-exception-lost-division-moved-into-branch"),
